@@ -26,7 +26,7 @@ var (
 		"nodesim-foreign-result", "nodesim-panic"}
 	nsFamC17 = []string{"nodesim-no-leader-in-fair-phase", "nodesim-no-progress-in-fair-phase",
 		"nodesim-replica-not-caught-up", "stuck-quorum-needs-self-removed-replica",
-		"stuck-higher-term-replica-ignores-leader", "nodesim-idle-quiescent-shard-stays-leaderless", "nodesim-joiner-ignored-by-quiescent-shard", "nodesim-panic"}
+		"stuck-higher-term-replica-ignores-leader", "nodesim-idle-quiescent-shard-stays-leaderless", "nodesim-joiner-ignored-by-quiescent-shard", "nodesim-orphan-snapshot-dir-blocks-restream", "nodesim-panic"}
 )
 
 type nsWeight struct {
@@ -61,7 +61,7 @@ type nsGen struct {
 }
 
 func (g *nsGen) pick(label string, n int) int { return vfhelp.PickN(g.t, label, n) }
-func (g *nsGen) coin(label string) bool        { return vfhelp.Pick(g.t, label, 1) == 1 }
+func (g *nsGen) coin(label string) bool       { return vfhelp.Pick(g.t, label, 1) == 1 }
 
 func (g *nsGen) pickAlive(label string) *nsReplica {
 	a := g.s.aliveReps()
@@ -258,7 +258,9 @@ func (g *nsGen) action() {
 			s.flag("act-stall")
 		}
 	case "crash":
-		if r := g.pickAlive("rep"); r != nil {
+		// (a promoted replica is never stopped: with which IsNonVoting flag it has to
+		// be restarted is undocumented, see findings/E9.md)
+		if r := g.pickAlive("rep"); r != nil && !r.promoted {
 			s.logf("stop r%d (process kill between two step worker iterations)", r.id)
 			s.flag("act-crash")
 			s.stopReplica(r)
@@ -355,7 +357,7 @@ func (g *nsGen) configChange() {
 		s.configChange(via, pb.AddNonVoting, spare, to)
 	case 6: // promote a started non-voting replica
 		for _, id := range nvs {
-			if s.reps[id].started {
+			if s.reps[id].alive {
 				s.reps[id].promoted = true
 				s.flag("act-cc-promote")
 				s.configChange(via, pb.AddNode, id, to)
@@ -578,7 +580,11 @@ func nsRun(t *testing.T, p *nsProfile) {
 	rapid.Check(t, func(t *rapid.T) {
 		g := &nsGen{t: t, p: p}
 		opts := g.genOpts()
-		s := newNsSim(t, st, p.armed, opts)
+		armed := p.armed
+		if x := os.Getenv("VF_NS_ARM"); x != "" { // development aid: arm more signatures
+			armed = append(append([]string{}, armed...), strings.Split(x, ",")...)
+		}
+		s := newNsSim(t, st, armed, opts)
 		g.s = s
 		defer s.cleanup()
 		E := int(opts.electionRTT)
@@ -673,8 +679,8 @@ func nsVoters(spec map[int]int) []int {
 
 func TestVF_C02_NodeSim(t *testing.T) {
 	nsRun(t, &nsProfile{
-		unit: "TestVF_C02_NodeSim",
-		rule: "E9 nodesim: real node objects, generated schedule of rounds/ticks/steps/stalled apply/partitions/held links/restarts/transfers/membership changes/snapshots + client requests; non-trivial = user entries were applied by at least two replicas AND the case had a leader change, a restart, a stalled apply worker or a link fault",
+		unit:  "TestVF_C02_NodeSim",
+		rule:  "E9 nodesim: real node objects, generated schedule of rounds/ticks/steps/stalled apply/partitions/held links/restarts/transfers/membership changes/snapshots + client requests; non-trivial = user entries were applied by at least two replicas AND the case had a leader change, a restart, a stalled apply worker or a link fault",
 		armed: nsFamC02,
 		weights: []nsWeight{{"round", 20}, {"rounds-long", 6}, {"idle", 1}, {"tick-one", 3}, {"step-one", 4}, {"apply-one", 2}, {"work-no-tick", 3},
 			{"propose", 16}, {"propose-burst", 6}, {"read", 3}, {"cc", 4}, {"transfer", 4}, {"snapshot", 3},
@@ -695,8 +701,8 @@ func TestVF_C02_NodeSim(t *testing.T) {
 
 func TestVF_C07_NodeSim(t *testing.T) {
 	nsRun(t, &nsProfile{
-		unit: "TestVF_C07_NodeSim",
-		rule: "E9 nodesim, membership profile; non-trivial = some replica had a membership change committed (handed to its apply queue) but not applied, AND a replica campaigned afterwards in the same case",
+		unit:  "TestVF_C07_NodeSim",
+		rule:  "E9 nodesim, membership profile; non-trivial = some replica had a membership change committed (handed to its apply queue) but not applied, AND a replica campaigned afterwards in the same case",
 		armed: nsFamC07,
 		weights: []nsWeight{{"round", 16}, {"rounds-long", 8}, {"tick-one", 3}, {"step-one", 3}, {"apply-one", 2},
 			{"propose", 8}, {"read", 1}, {"cc", 14}, {"transfer", 3}, {"snapshot", 2},
@@ -713,8 +719,8 @@ func TestVF_C07_NodeSim(t *testing.T) {
 
 func TestVF_C17_NodeSim(t *testing.T) {
 	nsRun(t, &nsProfile{
-		unit: "TestVF_C17_NodeSim",
-		rule: "E9 nodesim, progress profile (long idle stretches, Quiesce mostly on); fault prefix, then fair phase: 8-60 election timeouts without client (a leader must exist), then a write only client pinned to one generated replica (one proposal per election timeout until one completes, all running members catch up); non-trivial = a replica was quiescent or a replica's term was ahead of the leader's (or there was no leader) when the fair phase started",
+		unit:  "TestVF_C17_NodeSim",
+		rule:  "E9 nodesim, progress profile (long idle stretches, Quiesce mostly on); fault prefix, then fair phase: 8-60 election timeouts without client (a leader must exist), then a write only client pinned to one generated replica (one proposal per election timeout until one completes, all running members catch up); non-trivial = a replica was quiescent or a replica's term was ahead of the leader's (or there was no leader) when the fair phase started",
 		armed: nsFamC17,
 		weights: []nsWeight{{"round", 10}, {"rounds-long", 8}, {"idle", 12}, {"tick-one", 3}, {"step-one", 2},
 			{"propose", 8}, {"read", 2}, {"cc", 3}, {"transfer", 3}, {"snapshot", 1},
@@ -731,8 +737,8 @@ func TestVF_C17_NodeSim(t *testing.T) {
 
 func TestVF_C06_NodeSim(t *testing.T) {
 	nsRun(t, &nsProfile{
-		unit: "TestVF_C06_NodeSim",
-		rule: "E9 nodesim, read profile (reads and writes through every replica, leader transfers, partitions with deposed-but-unaware leaders); non-trivial = a ReadIndex completed after some proposal had completed AND the case had a leader change or a link fault",
+		unit:  "TestVF_C06_NodeSim",
+		rule:  "E9 nodesim, read profile (reads and writes through every replica, leader transfers, partitions with deposed-but-unaware leaders); non-trivial = a ReadIndex completed after some proposal had completed AND the case had a leader change or a link fault",
 		armed: nsFamC06,
 		weights: []nsWeight{{"round", 18}, {"rounds-long", 4}, {"tick-one", 4}, {"step-one", 6}, {"apply-one", 3}, {"work-no-tick", 4},
 			{"propose", 14}, {"propose-burst", 4}, {"read", 16}, {"cc", 2}, {"transfer", 6},
@@ -749,8 +755,8 @@ func TestVF_C06_NodeSim(t *testing.T) {
 
 func TestVF_C12_NodeSim(t *testing.T) {
 	nsRun(t, &nsProfile{
-		unit: "TestVF_C12_NodeSim",
-		rule: "E9 nodesim, request profile (all request kinds with short and long deadlines, replicas stopped with requests pending, leader loss); non-trivial = at least three different terminal result codes were observed in the case",
+		unit:  "TestVF_C12_NodeSim",
+		rule:  "E9 nodesim, request profile (all request kinds with short and long deadlines, replicas stopped with requests pending, leader loss); non-trivial = at least three different terminal result codes were observed in the case",
 		armed: nsFamC12,
 		weights: []nsWeight{{"round", 18}, {"rounds-long", 5}, {"idle", 1}, {"tick-one", 4}, {"step-one", 4}, {"apply-one", 2},
 			{"propose", 14}, {"propose-burst", 6}, {"read", 10}, {"cc", 8}, {"transfer", 4}, {"snapshot", 6},
